@@ -1,10 +1,191 @@
-//! Shared helpers for the core harnesses: arbitrary-state builders and stubs.
+//! Shared helpers for the core harnesses: arbitrary-state builders, stubs, oracles.
 use std::net::{IpAddr, Ipv4Addr};
 
-use srtla_core::connection::{LinkPhase, SrtlaConnection};
+use srtla_core::config_snapshot::ConfigSnapshot;
+use srtla_core::connection::{CachedQuality, CongestionControl, LinkPhase, SrtlaConnection};
+use srtla_core::kalman::KalmanFilter;
+use srtla_core::mode::SchedulingMode;
 
 /// Stub for `alloc::fmt::format` (log / warn message construction is not the
 /// subject of any property; real `format!` costs minutes of symbolic execution).
 pub fn no_format(_: core::fmt::Arguments<'_>) -> String {
     String::new()
+}
+
+/// Upper bound assumed for every clock value: 2^48 ms (~8900 years).  `now_ms()`
+/// is an epoch-scale millisecond counter (~2^41 today); the code adds small
+/// constants to it without overflow checks, so clocks near u64::MAX are outside
+/// every claim.
+pub const T_MAX: u64 = 1 << 48;
+
+#[cfg(kani)]
+pub fn any_time() -> u64 {
+    let t: u64 = kani::any();
+    kani::assume(t <= T_MAX);
+    t
+}
+
+#[cfg(kani)]
+pub fn any_opt_time() -> Option<u64> {
+    if kani::any() { Some(any_time()) } else { None }
+}
+
+#[cfg(kani)]
+pub fn any_cc() -> CongestionControl {
+    CongestionControl {
+        nak_count: kani::any(),
+        last_nak_time_ms: kani::any(),
+        last_window_increase_ms: kani::any(),
+        consecutive_acks_without_nak: kani::any(),
+        fast_recovery_mode: kani::any(),
+        fast_recovery_start_ms: kani::any(),
+        nak_burst_count: kani::any(),
+        nak_burst_start_time_ms: kani::any(),
+    }
+}
+
+#[cfg(kani)]
+pub fn any_window() -> i32 {
+    let w: i32 = kani::any();
+    kani::assume(w >= 1000 && w <= 60000);
+    w
+}
+
+#[cfg(kani)]
+pub fn any_phase() -> LinkPhase {
+    let k: u8 = kani::any();
+    match k & 3 {
+        0 => LinkPhase::Registering,
+        1 => LinkPhase::Warming { rtt_probes: kani::any(), entered_ms: any_time() },
+        2 => LinkPhase::Live,
+        _ => LinkPhase::Degraded,
+    }
+}
+
+/// How much of a connection is made symbolic.
+#[derive(Clone, Copy)]
+pub struct Sym {
+    /// smoothed RTT: 0 = "no RTT yet" (kalman value 0.0), 1 = symbolic integer-valued ms in
+    /// 0..=5000 (the code only ever uses `srtt as u64` and sign tests), 2 = fully symbolic finite f64
+    pub rtt: u8,
+    /// symbolic f64 fields used by enhanced scoring (bitrate, rtt_min, cached quality multiplier)
+    pub score_floats: bool,
+}
+
+pub const SYM_INT: Sym = Sym { rtt: 1, score_floats: false };
+pub const SYM_FULL: Sym = Sym { rtt: 1, score_floats: true };
+
+/// An arbitrary link.  Everything a scheduler / stall guard / liveness predicate reads is a
+/// solver variable, constrained only by the representation invariant documented in DESIGN.md:
+/// window in [1000,60000], in-flight >= 0, floats finite and in their documented ranges.
+/// `packet_log` and the batch queue are left empty unless a harness fills them (selection
+/// reads only the in-flight *count*, which is symbolic here).
+#[cfg(kani)]
+pub fn any_conn(id: u64, sym: Sym) -> SrtlaConnection {
+    let mut c = SrtlaConnection::new_registering(id, String::new(), IpAddr::V4(Ipv4Addr::LOCALHOST), 0);
+    c.connected = kani::any();
+    c.window = any_window();
+    let inf: i32 = kani::any();
+    kani::assume(inf >= 0);
+    c.in_flight_packets = inf;
+    c.last_received = any_opt_time();
+    c.last_sent = any_opt_time();
+    *c.vh_last_keepalive_sent_mut() = any_opt_time();
+    c.last_ack_or_rtt_sample_ms = any_time();
+    *c.vh_stall_gated_mut() = kani::any();
+    *c.vh_stall_latched_since_ms_mut() = any_time();
+    *c.vh_stall_recovery_since_ms_mut() = any_time();
+    let ev: u64 = kani::any();
+    kani::assume(ev < u64::MAX / 2);
+    *c.vh_stall_gate_events_mut() = ev;
+    let pc: u32 = kani::any();
+    kani::assume(pc < 100);
+    *c.vh_stall_probe_counter_mut() = pc;
+    *c.vh_silence_pulled_mut() = kani::any();
+    let sp: u64 = kani::any();
+    kani::assume(sp < u64::MAX / 2);
+    *c.vh_silence_pulls_mut() = sp;
+    let to: u64 = kani::any();
+    kani::assume(to >= 1000 && to <= 60000);
+    *c.vh_conn_timeout_ms_mut() = to;
+    *c.vh_phase_mut() = any_phase();
+    *c.vh_congestion_mut() = any_cc();
+    c.weak = kani::any();
+    c.cc_backing_off = kani::any();
+    c.loss_degraded = kani::any();
+    c.cc_target_bps = kani::any();
+    c.reconnection.last_reconnect_attempt_ms = any_time();
+    c.reconnection.reconnect_failure_count = kani::any();
+    c.reconnection.connection_established_ms = any_time();
+    c.reconnection.startup_grace_deadline_ms = any_time();
+    match sym.rtt {
+        0 => {}
+        1 => {
+            let ms: u16 = kani::any();
+            kani::assume(ms <= 5000);
+            let init: bool = kani::any();
+            c.rtt.kalman_rtt = KalmanFilter::vh_from_parts(ms as f64, 0.0, [0.0; 4], init);
+        }
+        _ => {
+            let x: f64 = kani::any();
+            kani::assume(x.is_finite());
+            let v: f64 = kani::any();
+            kani::assume(v.is_finite());
+            c.rtt.kalman_rtt = KalmanFilter::vh_from_parts(x, v, [0.0; 4], kani::any());
+        }
+    }
+    if sym.score_floats {
+        let bps: f64 = kani::any();
+        kani::assume(bps >= 0.0 && bps <= 1.0e10);
+        c.vh_bitrate_mut().current_bitrate_bps = bps;
+        let rmin: f64 = kani::any();
+        kani::assume(rmin.is_finite());
+        c.rtt.rtt_min_ms = rmin;
+        let q: f64 = kani::any();
+        kani::assume(q >= 0.35 && q <= 1.1 * 1.03);
+        *c.vh_quality_cache_mut() = CachedQuality { multiplier: q, last_calculated_ms: any_time() };
+    }
+    c
+}
+
+#[cfg(kani)]
+pub fn any_config(mode: SchedulingMode) -> ConfigSnapshot {
+    let to: u64 = kani::any();
+    kani::assume(to >= 1000 && to <= 60000);
+    let stale: u64 = kani::any();
+    kani::assume(stale <= T_MAX);
+    ConfigSnapshot {
+        mode,
+        quality_enabled: kani::any(),
+        stall_deselect: kani::any(),
+        stall_min_in_flight: kani::any(),
+        stall_ack_stale_ms: stale,
+        conn_timeout_ms: to,
+    }
+}
+
+/// The liveness predicate restated from the documentation (not by calling the code under test):
+/// a connected link is timed out iff it has heard nothing for `timeout` ms; a never-established,
+/// not-connected link is alive while inside its start-up grace; any other not-connected link is
+/// timed out once it has heard nothing (or never anything) for `timeout` ms.
+pub fn ref_timed_out(c: &SrtlaConnection, now: u64, timeout: u64) -> bool {
+    if c.connected {
+        match c.last_received {
+            Some(lr) => now.saturating_sub(lr) >= timeout,
+            None => false,
+        }
+    } else {
+        if c.reconnection.connection_established_ms == 0 && now < c.reconnection.startup_grace_deadline_ms {
+            return false;
+        }
+        match c.last_received {
+            Some(lr) => now.saturating_sub(lr) >= timeout,
+            None => true,
+        }
+    }
+}
+
+/// "usable" in the sense of C03/C04: registered since its last reset, connected, not timed out.
+pub fn ref_usable(c: &SrtlaConnection, now: u64, timeout: u64) -> bool {
+    c.connected && !matches!(c.vh_phase(), LinkPhase::Registering) && !ref_timed_out(c, now, timeout)
 }
